@@ -220,3 +220,23 @@ example :
     s.done = true := by decide
 
 end Fjall.Stall
+
+/-! ## A limit of the linearizability claim: point reads and scans use different instants -/
+namespace Fjall.Conc
+
+/-- the schedule of known finding F27: a writer has applied its item and has not published yet;
+    another thread reads the key with `get` (latest state: sees it), then opens a scan (a view
+    at the write floor: does not see it). -/
+def f27Progs : List (List Cmd) := [[.write [⟨1, [1], some [9]⟩]], [.readTop 1 [1], .snap, .read 1 [1]]]
+def f27Sched : List Tid := [0, 0, 0, 0, 1, 1, 1, 1]
+
+/-- **Point reads and scans are not linearizable together** (known finding F27, unchanged code):
+    in one thread, `get` returns a value and the scan opened *afterwards* does not contain it.
+    `c14_linearizable` is about writes and point reads; a scan is a snapshot read (C06), whose
+    instant is capped by the write floor while the write is between its apply and its publish. -/
+theorem c14_get_then_scan_counterexample :
+    let s := run {} (init f27Progs) f27Sched
+    Ev.readTop 1 1 [1] (some [9]) ∈ s.log ∧ s.obs = [⟨1, 0, 1, [1], none⟩] := by
+  decide
+
+end Fjall.Conc
